@@ -176,7 +176,7 @@ func runRPCScenario(e *rpcEnv, r *rand.Rand, sc rpcScenario) scenarioResult {
 
 func c09(c *wk.Ctx) {
 	idx := 0
-	n := c.Pick(40, 1500)
+	n := c.Pick(120, 3000)
 	for k := 0; k < n; k++ {
 		if c.Mine(idx) {
 			r := c.Rand(idx)
